@@ -128,6 +128,17 @@ def fusion_guard(ctx, r):
         for c in calls:
             got = expr_str(f, c["a"][0])
             r.check(got == want, "space_text/%s-arg" % name.split("::")[-1], db.loc(f, c), "%s is applied to `%s`, expected `%s`" % (name, got, want))
+    # space_needed() turns the decision into text (the merged type of a conversion operator): it has no PCF_FORCE_SPACE to
+    # consult, so its own `return 0` must exclude two words
+    sn = db.fn("space_needed", file=SPACE)
+    zeros = [n for n in sn.all_nodes() if n["k"] == "ret" and n.get("a") and sn.nodes[n["a"][0]]["k"] == "int" and sn.nodes[n["a"][0]]["v"] == 0]
+    r.require(zeros, "space_needed has no `return 0`")
+    for z in zeros:
+        r.seen()
+        cs = [(expr_str(sn, cn), pol) for cn, pol in sn.guard_conds(sn.nblock[z["i"]]) if cn is not None]
+        ok = any(pol is False and "IsKw2(first->GetStr()[first->Len() - 1])" in c and "IsKw1(second->GetStr()[0])" in c and "||" not in c for c, pol in cs)
+        r.check(ok, "space_needed/no-zero-between-words", db.loc(sn, z), "space_needed() can return 0 blanks for two words (its result is written into the merged "
+                "text of a conversion operator's type: `operator unsignedlong`)")
     # PCF_FORCE_SPACE is written nowhere else
     for g in db.funcs.values():
         if g.key == f.key:
